@@ -58,6 +58,21 @@ def pkiWrap (C : Cipher) (kind : PkiKind) (payload pwd salt : Bytes) (iter : Nat
   | .ok pki => epkiSeal C pki pwd salt iter
   | _ => (.badFormat, [])
 
+/-- bpkiPrivkeyWrap / bpkiShareWrap with epki == 0: the ANNOUNCED length.  The sizing pass of the C code calls the static
+encoders with null buffers (`bpkiPrivkeyEnc(0, …)`, `bpkiEdataEnc(0, 0, edata_len, 0, iter)`), i.e. it computes the length
+of the code of data of the given SIZES: modelled by encoding zero octets of these sizes.  The length depends on `iter`
+through the DER INTEGER iterCount (2 content octets up to 32767, 3 up to 8388607, …). -/
+def pkiWrapLen (kind : PkiKind) (payload : Bytes) (iter : Nat) : E × Nat :=
+  if iter < iterMin then (.badInput, 0) else
+  let c := payloadCheck kind payload
+  if c ≠ .ok then (c, 0) else
+  match pkiEnc kind payload with
+  | .ok pki =>
+    match Bee2V.C08.bpkiEdataEnc (zeros (pki.length + 16)) (zeros 8) iter with
+    | .ok e => (.ok, e.length)
+    | _ => (.badFormat, 0)
+  | _ => (.badFormat, 0)
+
 /-- bpkiEdataDec as used by Unwrap: (edata, salt, iter) if the code is exactly the input -/
 def edataOpen (epki : Bytes) : Except E (Bytes × Bytes × Nat) :=
   match Bee2V.C08.bpkiEdataDec epki with
